@@ -832,6 +832,39 @@ func r1Static() []*big.Int {
 			s.add(scxAddI(scxPow2(seam), e))
 		}
 	}
+	// carry chains that start in one 64-bit word and run through WHOLE higher words: for every radix the digit value that
+	// absorbs a carry and passes it on (radix/2 - 1 in every digit of the word), above a word that produces the carry.
+	// A word-parallel recoding that mishandles the carry between words is wrong exactly on these (2^-64 per seam at random).
+	{
+		fill := func(digitBits uint, d uint64) *big.Int { // 64-bit word made of digits d (top partial digit truncated)
+			w := new(big.Int)
+			for sh := uint(0); sh < 64; sh += digitBits {
+				w.Or(w, new(big.Int).Lsh(new(big.Int).SetUint64(d), sh))
+			}
+			return w.And(w, new(big.Int).Sub(scxPow2(64), bi1))
+		}
+		for _, db := range []uint{4, 6, 7, 8, 1, 2, 3, 5} {
+			half := uint64(1) << (db - 1)
+			pass := fill(db, half-1)                      // every digit = radix/2 - 1
+			gens := []*big.Int{fill(db, half), fill(db, (1<<db)-1), new(big.Int).Add(pass, bi1), new(big.Int).Sub(scxPow2(64), bi1), scxPow2(63)}
+			for lo := uint(0); lo < 3; lo++ {
+				for span := uint(1); lo+span < 4; span++ {
+					for _, gen := range gens {
+						n := new(big.Int).Lsh(gen, 64*lo)
+						for k := uint(1); k <= span; k++ {
+							n.Or(n, new(big.Int).Lsh(pass, 64*(lo+k)))
+						}
+						s.add(scxMask(n, 255))
+						// ... with everything above set to a non-passing value, and with the word below non-zero
+						s.add(scxMask(new(big.Int).Or(n, scxPow2(64*(lo+span)+64-1)), 255))
+						if lo > 0 {
+							s.add(scxMask(new(big.Int).Or(n, bi1), 255))
+						}
+					}
+				}
+			}
+		}
+	}
 	// top-of-scalar patterns (terminal carries)
 	for _, tb := range []int64{0x3f, 0x40, 0x70, 0x77, 0x78, 0x7e, 0x7f} {
 		for _, nb := range []int64{0x00, 0x7f, 0x80, 0xff} {
